@@ -366,6 +366,14 @@ class Contract:
     bounded_note = None
     sample_bounds = {}  # input name -> (lo, hi): domain used by concrete sampling / replay search only
 
+    replayable = None  # None: replayable iff not abstract; True/False overrides
+
+    def is_replayable(self):
+        """can the contract be evaluated concretely on real executions (replay / cross-check)?"""
+        if self.replayable is not None:
+            return bool(self.replayable)
+        return not self.abstract and getattr(self, "cross_check", True)
+
     # ---- to be provided by concrete contracts ----
     def setup(self, c):
         raise NotImplementedError
